@@ -359,3 +359,280 @@ Example nested_run :
              IC T_private (CMembers mods0 [MField (Some 4) (TBase 8 false false) None None]);
              IFwd T_private T_struct 10] FinNone)], 0, []).
 Proof. vm_compute. reflexivity. Qed.
+
+(* ------------------------------------------------------------------ *)
+(* translation units: namespaces (any names, any depth), linkage blocks, class definitions (trees as above), forward
+   declarations and declaration statements at namespace scope *)
+From CXV Require Import Parse.NsHeader.
+From CXV Require Parse.DispatchLang Gen.Dispatch Parse.DispatchExternThms.
+
+Inductive nelem :=
+| NEmpty
+| NStmt (toks : list tk) (it : nitem)          (* a declaration statement of the statement models *)
+| NClassE (w : wclass)
+| NFwdE (key name : N)
+| NNs (names : list N) (elems : list nelem)    (* namespace a::b { elems }   (no names: the anonymous namespace) *)
+| NExternB (l : tk) (elems : list nelem).      (* extern "C" { elems } *)
+
+Fixpoint nelem_toks (e : nelem) : list tk :=
+  match e with
+  | NEmpty => [ktok SEMI]
+  | NStmt toks _ => toks
+  | NClassE w => welem_toks (WClass w)
+  | NFwdE key name => [ktok key; mkTk T_NAME name; ktok SEMI]
+  | NNs names es => ktok T_namespace :: path_toks names ++ ktok LBRACE :: flat_map nelem_toks es ++ [ktok RBRACE]
+  | NExternB l es => ktok T_extern :: l :: ktok LBRACE :: flat_map nelem_toks es ++ [ktok RBRACE]
+  end.
+
+Fixpoint nelem_spec (e : nelem) : list item :=
+  match e with
+  | NEmpty => []
+  | NStmt _ it => [INs it]
+  | NClassE w => [wclass_spec 0 w]
+  | NFwdE key name => [IFwd 0 key name]
+  | NNs names es => [INamespace false names (flat_map nelem_spec es)]
+  | NExternB l es => [IExtern (kval l) (flat_map nelem_spec es)]
+  end.
+
+Fixpoint nelem_ok (n : nat) (dt : list (N * N)) (e : nelem) {struct e} : Prop :=
+  match e with
+  | NEmpty => True
+  | NStmt toks it => ns_stmt_ok n toks it /\ (forall rest, class_stmt_head false (toks ++ rest) = CHNot)
+  | NClassE w => welem_ok n dt anon_base anon_base (WClass w)
+  | NFwdE key _ => class_key key
+  | NNs _ es => (fix all (l : list nelem) : Prop := match l with [] => True | x :: r => nelem_ok n dt x /\ all r end) es
+  | NExternB l es => kty l = T_STRING_LITERAL /\
+                     (fix all (l : list nelem) : Prop := match l with [] => True | x :: r => nelem_ok n dt x /\ all r end) es
+  end.
+Fixpoint nelems_ok (n : nat) (dt : list (N * N)) (l : list nelem) : Prop :=
+  match l with [] => True | x :: r => nelem_ok n dt x /\ nelems_ok n dt r end.
+
+Fixpoint nsize (e : nelem) : nat :=
+  match e with
+  | NClassE w => S (S (esize (WClass w)))
+  | NNs _ es | NExternB _ es => S (S ((fix sum (l : list nelem) : nat := match l with [] => O | x :: r => (nsize x + sum r)%nat end) es))
+  | _ => 1%nat
+  end.
+Fixpoint nssize (l : list nelem) : nat := match l with [] => O | x :: r => (nsize x + nssize r)%nat end.
+
+Definition tail_ok (T : list tk) : Prop := match T with [] => True | t :: _ => stop_tok t end.
+
+Lemma body_tail k n f dt ctx acc aid T : tail_ok T -> body (S k) n f dt ctx acc aid T = DOk ([], aid, T).
+Proof. destruct T as [|t r]; intros H; [apply body_nil|now apply body_stop]. Qed.
+
+(* one step at namespace scope, at a token that goes to _parse_declarations *)
+Lemma body_decl_step_ns k' n f dt aid t r :
+  is_decl_head t ->
+  body (S k') n f dt None 0 aid (t :: r)
+  = match class_stmt_head false (t :: r) with
+    | CHNot =>
+        match ns_decl n f (t :: r) with
+        | DErr e => DErr e
+        | DOk (it, r') =>
+            match body k' n f dt None 0 aid r' with
+            | DOk (l, a, rr) => DOk (INs it :: l, a, rr)
+            | DErr e => DErr e
+            end
+        end
+    | CHErr e => DErr e
+    | CHFwd m key nm r1 =>
+        match body k' n f dt None 0 aid r1 with
+        | DOk (l, a, rr) => DOk (IFwd 0 key nm :: l, a, rr)
+        | DErr e => DErr e
+        end
+    | CHDef m key nm fi ex bs r1 =>
+        let '(bn, anon, aid1) := match nm with Some x => (x, false, aid) | None => (anon_base + aid + 1, true, aid + 1) end in
+        let inner := match nm with Some x => (x, dtor_of dt x) | None => (anon_base, anon_base) end in
+        match body k' n f dt (Some inner) (default_access key) aid1 r1 with
+        | DErr e => DErr e
+        | DOk (members, aid2, r2) =>
+            match r2 with
+            | cb :: r3 =>
+                if is RBRACE cb then
+                  match finish_class n f false false anon (negb (key =? T_class)) m anon_base anon_base bn (m_const m) (m_volatile m) r3 with
+                  | DErr e => DErr e
+                  | DOk (fin, r4) =>
+                      match body k' n f dt None 0 aid2 r4 with
+                      | DOk (l, a, rr) => DOk (IClass 0 (mkCD m key bn anon false fi ex bs members fin) :: l, a, rr)
+                      | DErr e => DErr e
+                      end
+                  end
+                else DErr 3
+            | [] => DErr 4
+            end
+        end
+    end.
+Proof.
+  intros Hh. unfold is_decl_head in Hh. cbn [body]. rewrite Hh.
+  destruct (class_stmt_head false (t :: r)) as [|e|m key nm r1|m key nm fi ex bs r1]; reflexivity.
+Qed.
+
+(* a block opened at namespace scope *)
+Lemma body_ns_step k' n f dt aid names X :
+  body (S k') n f dt None 0 aid (ktok T_namespace :: path_toks names ++ ktok LBRACE :: X)
+  = match body k' n f dt None 0 aid X with
+    | DErr e => DErr e
+    | DOk (members, aid2, r1) =>
+        match r1 with
+        | cb :: r2 =>
+            if is RBRACE cb then
+              match body k' n f dt None 0 aid2 r2 with
+              | DOk (l, a, rr) => DOk (INamespace false names members :: l, a, rr)
+              | DErr e => DErr e
+              end
+            else DErr 3
+        | [] => DErr 4
+        end
+    end.
+Proof.
+  cbn [body]. change (assocN (kty (ktok T_namespace)) tu_table) with (Some H_parse_namespace). cbn iota.
+  change (H_parse_namespace =? H_on_block_end) with false. change (H_parse_namespace =? 0) with false.
+  rewrite N.eqb_refl. cbn iota. rewrite ns_definition_roundtrip. reflexivity.
+Qed.
+
+Lemma body_extern_step k' n f dt aid l X :
+  kty l = T_STRING_LITERAL ->
+  body (S k') n f dt None 0 aid (ktok T_extern :: l :: ktok LBRACE :: X)
+  = match body k' n f dt None 0 aid X with
+    | DErr e => DErr e
+    | DOk (members, aid2, r1) =>
+        match r1 with
+        | cb :: r2 =>
+            if is RBRACE cb then
+              match body k' n f dt None 0 aid2 r2 with
+              | DOk (l', a, rr) => DOk (IExtern (kval l) members :: l', a, rr)
+              | DErr e => DErr e
+              end
+            else DErr 3
+        | [] => DErr 4
+        end
+    end.
+Proof.
+  intros Hl. cbn [body]. change (assocN (kty (ktok T_extern)) tu_table) with (Some H_parse_extern). cbn iota.
+  change (H_parse_extern =? H_on_block_end) with false. change (H_parse_extern =? 0) with false.
+  change (H_parse_extern =? H_parse_namespace) with false. change (H_parse_extern =? H_parse_inline) with false.
+  rewrite N.eqb_refl. cbn iota.
+  rewrite (DispatchExternThms.extern_block_opens (ktok T_extern) l (ktok LBRACE) X Hl eq_refl). reflexivity.
+Qed.
+
+Lemma nall_ok n dt es :
+  (fix all (l : list nelem) : Prop := match l with [] => True | x :: r => nelem_ok n dt x /\ all r end) es -> nelems_ok n dt es.
+Proof. induction es as [|x r IH]; [intros; exact I|]. intros [A B]. split; [exact A|now apply IH]. Qed.
+Lemma nsum_eq es :
+  (fix sum (l : list nelem) : nat := match l with [] => O | x :: r => (nsize x + sum r)%nat end) es = nssize es.
+Proof. induction es as [|x r IH]; [reflexivity|]. cbn [nssize]. now rewrite <- IH. Qed.
+
+Lemma body_nelems : forall k n dt (es : list nelem) aid T,
+  (nssize es < k)%nat -> nelems_ok n dt es -> tail_ok T ->
+  ev (fun f => body k n f dt None 0 aid (flat_map nelem_toks es ++ T)) (DOk (flat_map nelem_spec es, aid, T)).
+Proof.
+  induction k as [|k' IH]; intros n dt es aid T Hk Hok HT; [lia|].
+  destruct es as [|e q].
+  - exists 0%nat. intros f _. cbn [flat_map app]. now apply body_tail.
+  - cbn [nelems_ok] in Hok. destruct Hok as [He Hq]. cbn [nssize] in Hk.
+    assert (He1 : (1 <= nsize e)%nat) by (destruct e; cbn [nsize]; lia).
+    assert (Hk' : (nssize q < k')%nat) by lia.
+    cbn [flat_map]. rewrite <- app_assoc.
+    destruct (IH n dt q aid T Hk' Hq HT) as [f2 H2].
+    remember (flat_map nelem_toks q ++ T) as TAIL.
+    destruct e as [|toks it|w|key name|names es'|l es']; cbn [nelem_toks nelem_ok nelem_spec] in *.
+    + exists f2. intros f Hge. cbn [app body].
+      change (assocN (kty (ktok SEMI)) tu_table) with (Some 0). cbn iota.
+      change (0 =? H_on_block_end) with false. rewrite N.eqb_refl. cbn iota. now apply H2.
+    + destruct He as [[(t & r & E & Hh) Hdec] Hnot]. subst toks.
+      destruct (Hdec TAIL) as [f1 H1].
+      exists (Nat.max f1 f2). intros f Hge.
+      change ((t :: r) ++ TAIL) with (t :: r ++ TAIL). rewrite (body_decl_step_ns k' n f dt aid t (r ++ TAIL) Hh).
+      change (t :: r ++ TAIL) with ((t :: r) ++ TAIL). rewrite Hnot. rewrite H1 by lia. rewrite H2 by lia. reflexivity.
+    + destruct w as [key name vs ws es']. cbn [welem_ok] in He. destruct He as (Hkey & Hws & Hvs & Hin).
+      assert (Hin' : welems_ok n dt name (dtor_of dt name) es').
+      { clear - Hin. induction es' as [|x r IHr]; [exact I|]. destruct Hin as [A B]. split; [exact A|now apply IHr]. }
+      assert (E : (fix sum (l : list welem) : nat := match l with [] => O | x :: r => (esize x + sum r)%nat end) es' = ssize es').
+      { clear. induction es' as [|x r IHr]; [reflexivity|]. cbn [ssize]. now rewrite <- IHr. }
+      assert (Hsz : (ssize es' < k')%nat) by (cbn [nsize esize] in Hk; rewrite E in Hk; lia).
+      assert (Hrb : stop_tok (ktok RBRACE)) by reflexivity.
+      destruct (body_elems k' n dt es' name (dtor_of dt name) (default_access key) aid (ktok RBRACE) (ktok SEMI :: TAIL) Hsz Hin' Hrb) as [f1 H1].
+      exists (Nat.max f1 f2). intros f Hge. cbn [welem_toks].
+      replace ((ktok key :: mkTk T_NAME name :: vs_toks vs ++ bases_toks ws ++ ktok LBRACE :: flat_map welem_toks es' ++ [ktok RBRACE; ktok SEMI]) ++ TAIL)
+        with (ktok key :: mkTk T_NAME name :: vs_toks vs ++ bases_toks ws ++ ktok LBRACE :: (flat_map welem_toks es' ++ ktok RBRACE :: ktok SEMI :: TAIL)).
+      2:{ cbn [app]. rewrite <- !app_assoc. cbn [app]. rewrite <- !app_assoc. reflexivity. }
+      rewrite (body_decl_step_ns k' n f dt aid _ _ (class_key_decl_head key Hkey)).
+      rewrite (class_head_written key name vs ws _ Hkey Hws Hvs). cbv zeta. cbn iota.
+      rewrite H1 by lia. change (is RBRACE (ktok RBRACE)) with true. cbn iota.
+      change (m_const mods0) with false. change (m_volatile mods0) with false.
+      rewrite (finish_semicolon n f false false (negb (key =? T_class)) mods0 anon_base anon_base name false false (ktok SEMI) TAIL eq_refl).
+      cbn [andb]. rewrite H2 by lia. rewrite wclass_spec_eq. reflexivity.
+    + exists f2. intros f Hge. cbn [app].
+      rewrite (body_decl_step_ns k' n f dt aid _ _ (class_key_decl_head key He)).
+      rewrite (class_fwd_written key name TAIL He). rewrite H2 by lia. reflexivity.
+    + apply nall_ok in He. cbn [nsize] in Hk. rewrite nsum_eq in Hk.
+      assert (Hrb : tail_ok (ktok RBRACE :: TAIL)) by reflexivity.
+      destruct (IH n dt es' aid (ktok RBRACE :: TAIL) ltac:(lia) He Hrb) as [f1 H1].
+      exists (Nat.max f1 f2). intros f Hge.
+      replace ((ktok T_namespace :: path_toks names ++ ktok LBRACE :: flat_map nelem_toks es' ++ [ktok RBRACE]) ++ TAIL)
+        with (ktok T_namespace :: path_toks names ++ ktok LBRACE :: (flat_map nelem_toks es' ++ ktok RBRACE :: TAIL)).
+      2:{ cbn [app]. rewrite <- !app_assoc. cbn [app]. rewrite <- !app_assoc. reflexivity. }
+      rewrite body_ns_step. rewrite H1 by lia. change (is RBRACE (ktok RBRACE)) with true. cbn iota.
+      rewrite H2 by lia. reflexivity.
+    + destruct He as [Hl He]. apply nall_ok in He. cbn [nsize] in Hk. rewrite nsum_eq in Hk.
+      assert (Hrb : tail_ok (ktok RBRACE :: TAIL)) by reflexivity.
+      destruct (IH n dt es' aid (ktok RBRACE :: TAIL) ltac:(lia) He Hrb) as [f1 H1].
+      exists (Nat.max f1 f2). intros f Hge.
+      replace ((ktok T_extern :: l :: ktok LBRACE :: flat_map nelem_toks es' ++ [ktok RBRACE]) ++ TAIL)
+        with (ktok T_extern :: l :: ktok LBRACE :: (flat_map nelem_toks es' ++ ktok RBRACE :: TAIL)).
+      2:{ cbn [app]. rewrite <- !app_assoc. reflexivity. }
+      rewrite (body_extern_step k' n f dt aid l _ Hl). rewrite H1 by lia. change (is RBRACE (ktok RBRACE)) with true. cbn iota.
+      rewrite H2 by lia. reflexivity.
+Qed.
+
+(* a whole translation unit: every statement is reported once, in order, in the scope it is written in *)
+Theorem unit_tree n dt (es : list nelem) :
+  nelems_ok n dt es ->
+  ev (fun f => body (S (nssize es)) n f dt None 0 0 (flat_map nelem_toks es)) (DOk (flat_map nelem_spec es, 0, [])).
+Proof.
+  intros Hok. destruct (body_nelems (S (nssize es)) n dt es 0 [] ltac:(lia) Hok I) as [f1 H1].
+  exists f1. intros f Hge. specialize (H1 f Hge). now rewrite app_nil_r in H1.
+Qed.
+
+(* parser-side compositionality: the unit A B reads as the items of A followed by the items of B *)
+Corollary unit_concatenation n dt (A B : list nelem) :
+  nelems_ok n dt A -> nelems_ok n dt B ->
+  ev (fun f => body (S (nssize (A ++ B))) n f dt None 0 0 (flat_map nelem_toks A ++ flat_map nelem_toks B))
+     (DOk (flat_map nelem_spec A ++ flat_map nelem_spec B, 0, [])).
+Proof.
+  intros HA HB.
+  assert (Hab : nelems_ok n dt (A ++ B)).
+  { clear - HA HB. induction A as [|x r IH]; [exact HB|]. destruct HA as [H1 H2]. split; [exact H1|now apply IH]. }
+  pose proof (unit_tree n dt (A ++ B) Hab) as H. now rewrite !flat_map_app in H.
+Qed.
+
+(* a declaration statement of the statement theorems is such an element *)
+Lemma decl_stmt_is_nelem dt pre post b items last le :
+  forallb spec_kw pre = true -> forallb spec_kw post = true ->
+  has T_explicit (pre ++ post) = false -> has T_virtual (pre ++ post) = false -> has T_mutable (pre ++ post) = false ->
+  Forall ditem_ok items -> ditem_ok last -> last_ok last le ->
+  is_decl_head (hd (nm_tok b) (kw_toks pre)) ->
+  let m := apply_kws (pre ++ post) mods0 in
+  let bt := TBase b (m_const m) (m_volatile m) in
+  nelem_ok (S (length items)) dt
+    (NStmt (kw_toks pre ++ nm_tok b :: kw_toks post ++ items_toks items last le)
+           (NDecls m (map (ditem_entry bt) items ++ [last_entry bt last le]))).
+Proof.
+  intros Hpre Hpost Hex Hvi Hmu Hall Hlast Hle Hh m bt. cbn [nelem_ok]. split.
+  - exact (decl_stmt_is_stmt pre post b items last le Hpre Hpost Hex Hvi Hmu Hall Hlast Hle Hh).
+  - intros rest. unfold class_stmt_head. rewrite <- app_assoc. cbn [app].
+    now rewrite (ckey_loop_specs_name pre mods0 b _ Hpre).
+Qed.
+
+(* `namespace a::b { int x ; extern "C" { struct S { int y ; } ; } } int z ;`   (ids: a 1, b 2, int 8, x 3, "C" 4, S 5, y 6, z 7) *)
+Example unit_run :
+  body 12 3 80 [] None 0 0
+    ([ktok T_namespace; mkTk T_NAME 1; ktok T_DBL_COLON; mkTk T_NAME 2; ktok LBRACE; mkTk T_NAME 8; mkTk T_NAME 3; ktok SEMI;
+      ktok T_extern; mkTk T_STRING_LITERAL 4; ktok LBRACE; ktok T_struct; mkTk T_NAME 5; ktok LBRACE; mkTk T_NAME 8; mkTk T_NAME 6; ktok SEMI;
+      ktok RBRACE; ktok SEMI; ktok RBRACE; ktok RBRACE; mkTk T_NAME 8; mkTk T_NAME 7; ktok SEMI])
+  = DOk ([INamespace false [1; 2]
+            [INs (NDecls mods0 [EVar 3 (TBase 8 false false) None]);
+             IExtern 4 [IClass 0 (mkCD mods0 T_struct 5 false false false false []
+                                    [IC T_public (CMembers mods0 [MField (Some 6) (TBase 8 false false) None None])] FinNone)]];
+          INs (NDecls mods0 [EVar 7 (TBase 8 false false) None])], 0, []).
+Proof. vm_compute. reflexivity. Qed.
